@@ -36,12 +36,16 @@ class SimDict:
     """the whole DictProxy surface; each call is one round trip to the (simulated) manager process"""
     ops = 0
 
-    def __init__(self):
+    def __init__(self, manager=None):
         self._d = {}
+        self._manager = manager
 
     def _rt(self, name):
         _yield(name)
         SimDict.ops += 1
+        if self._manager is not None and not self._manager.alive:
+            # the server process behind this proxy is gone
+            raise BrokenPipeError(32, "Broken pipe (simulated manager process was shut down)")
 
     def __contains__(self, k):
         self._rt("contains")
@@ -126,21 +130,32 @@ def _same(i):
 
 
 class SimManager:
+    """stands for the manager server process: proxies die with it"""
+
+    def __init__(self, *a, **kw):
+        self.alive = True
+
     def dict(self, *a, **kw):
-        d = SimDict()
+        d = SimDict(manager=self)
         _PROXIES[id(d)] = d
         if a or kw:
             d.update(*a, **kw)
         return d
 
+    def start(self):
+        self.alive = True
+
+    def shutdown(self):
+        self.alive = False
+
     def __enter__(self):
         return self
 
     def __exit__(self, *a):
-        pass
+        self.shutdown()
 
-    def shutdown(self):
-        pass
+    def __reduce__(self):
+        raise TypeError("Pickling a Manager object is not possible (as with multiprocessing.managers.SyncManager)")
 
 
 # ----------------------------------------------------------------------------------------------
@@ -291,16 +306,25 @@ class Spec(core.PropSpec):
         _PROXIES.clear()
         results = {}
         try:
+            import os as _os0
+            _real = _os0.getpid
+            _os0.getpid = lambda: 40000
             try:
                 ds = sdd.SharedDictDataset(Base(kind, n), transform=Transform(tf) if tf else None)
             except Exception as e:
                 out.violate("C19:raises:" + type(e).__name__, "constructor", f"{type(e).__name__}: {e}")
                 return out, []
-            views = []
-            for r in range(R):
-                v = copy.copy(ds)  # what a forked / pickled dataset gives: own object, same proxy
-                v.dataset = pickle.loads(pickle.dumps(ds.dataset))
-                views.append(v)
+            finally:
+                _os0.getpid = _real
+            # reader 0 is the process that created the dataset; the others hold pickled copies (own object, same proxy)
+            views = [ds]
+            for r in range(1, R):
+                try:
+                    views.append(pickle.loads(pickle.dumps(ds)))
+                except Exception:
+                    v = copy.copy(ds)
+                    v.dataset = pickle.loads(pickle.dumps(ds.dataset))
+                    views.append(v)
 
             def make(r):
                 def body():
@@ -325,9 +349,19 @@ class Spec(core.PropSpec):
             for r in range(R):
                 sched.spawn(f"r{r}", make(r))
             SCHED[0] = sched
+            import os as _os
+            real_getpid = _os.getpid
+            base_pid = 40000
+
+            def sim_getpid():  # every reader is its own process; reader 0 is the creating process
+                cur = sched.current
+                return base_pid + (int(cur[1:]) if cur else 0)
+
+            _os.getpid = sim_getpid
             try:
                 sched.run()
             finally:
+                _os.getpid = real_getpid
                 SCHED[0] = None
         finally:
             sdd.Manager = saved
